@@ -323,7 +323,9 @@ func runC15(c *run.Ctx) {
 			b   built
 		}{{ugcBin, build(specByName("cmd-ugc"))}, {emailBin, build(specByName("cmd-email"))}}
 		kk := 2
-		cmdAlpha := append(append([]string{}, fragCore...), "%", "%s %d", "100% sure", `<a href="/a%20b">`, "\n", "\r\n", "  ", "\t", "%!", "\x00", "é")
+		cmdAlpha := append(append([]string{}, fragCore...), "%", "%s %d", "100% sure", `<a href="/a%20b">`, "\n", "\r\n", "  ", "\t", "%!", "\x00", "é",
+			`<font color="infrared">`, `<font color="#1234567">`, `<font color="Red">`, `<hr bgcolor="xredx">`, `<button type="submit">`, `<button type="a">`, `<table border=1 cellpadding=x>`,
+			`<style type="text/css">`, `<img src="data:image/png;base64,iVBORw0KGgo=">`, `<span class="a b" style="x">`, `<a href="http://e.x/" class="c">`, `<title>`, `<kbd>`)
 		SeqsS(c, "c15cmd", cmdAlpha, 0, kk, func(in []byte, _ []int) {
 			for _, t := range tools {
 				want, pm := San(t.b.P, string(in))
